@@ -15,7 +15,7 @@ func init() {
 	register(&Check{
 		ID:     "C17",
 		Level:  "exploration",
-		Rule:   "28 programs (find and replace, no / flat / nested variables from named loops, zero matches, skip windows, two commands, replacement text with per-cent signs) x every text of <= 4 symbols (thorough: also every text of 5 symbols over a 7-symbol subset) over {a, \", \\, newline, 0x01, e-acute (2 bytes), 0xff, tab, %, colon, comma}, plus three programs on every list length 0..1100 (thorough 4200) matches: Json() and FormattedJson() must return, be valid JSON, decode to equal documents with one object per match whose filename, matchNumber, offset, line, column, value, variables (recursively) equal the in-memory match and whose replacement key is present exactly for replace commands; strings are compared exactly when valid UTF-8 and after U+FFFD substitution otherwise; non-trivial = distinct (program,text) pairs with at least one match",
+		Rule:   "28 programs (find and replace, no / flat / nested variables from named loops, zero matches, skip windows, two commands, replacement text with per-cent signs) x every text of <= 4 symbols (thorough: also every text of 5 symbols over a 7-symbol subset) over {a, \", \\, newline, 0x01, e-acute (2 bytes), 0xff, tab, %, colon, comma, U+1F600 (4 bytes, outside the BMP)}, plus three programs on every list length 0..1100 (thorough 4200) matches: Json() and FormattedJson() must return, be valid JSON, decode to equal documents with one object per match whose filename, matchNumber, offset, line, column, value, variables (recursively) equal the in-memory match and whose replacement key is present exactly for replace commands; strings are compared exactly when valid UTF-8 and after U+FFFD substitution otherwise; non-trivial = distinct (program,text) pairs with at least one match",
 		Assume: []string{"encoding/json is the arbiter of validity and decoding"},
 		Budget: map[string]int{"quick": 120, "thorough": 900},
 		Run:    runC17,
@@ -132,7 +132,7 @@ func c17Check(ms engine.Matches, doc []any, isReplace func(i int) bool) string {
 }
 
 func runC17(c *Ctx) {
-	syms := []string{"a", "\"", "\\", "\n", "\x01", "é", "\xff", "\t", "%", ":", ","}
+	syms := []string{"a", "\"", "\\", "\n", "\x01", "é", "\xff", "\t", "%", ":", ",", "\U0001F600"}
 	var txts []string
 	var gen func(cur string, n int)
 	maxN := 4
